@@ -44,6 +44,9 @@ type Engine struct{}
 type op struct {
 	desc OpDesc
 	run  func(yield func()) []interface{} // raw result parts; rendered after the join, outside the tasks
+	// check is an analytic oracle on the rendered result (independent of the
+	// run-alone reference, which shares the process with the concurrent phase)
+	check func(rendered string, parts []interface{}) string
 }
 
 func render(parts []interface{}) string {
@@ -142,7 +145,13 @@ type shared struct {
 
 func genShared(c *simkit.Choices) *shared {
 	s := &shared{}
-	for i, n := 0, 2+c.N(3); i < n; i++ {
+	// the first shared value always contains model.Inner, the type for which
+	// tasks register different custom folders/unfolders
+	inner := []string{"Nested", "Tagged", "Inner", "[]*Inner"}
+	te0 := model.TypeByName(inner[c.N(len(inner))])
+	s.types = append(s.types, te0)
+	s.vals = append(s.vals, te0.Gen(c))
+	for i, n := 0, 1+c.N(3); i < n; i++ {
 		te := pickType(c)
 		s.types = append(s.types, te)
 		s.vals = append(s.vals, te.Gen(c))
@@ -165,19 +174,32 @@ func genShared(c *simkit.Choices) *shared {
 // handled differently by different tasks, through per-instance registries.
 func innerFolder(variant int) interface{} {
 	return func(in *model.Inner, vs structform.ExtVisitor) error {
-		if variant%2 == 0 {
-			return vs.OnString(fmt.Sprintf("v%d:%s", variant, in.Z))
-		}
-		return vs.OnInt(variant*1000 + int(in.X))
+		return vs.OnString(marker("v", variant) + in.Z)
 	}
 }
 
 func innerUnfolder(variant int) interface{} {
 	return func(to *model.Inner, s string) error {
-		to.Z = fmt.Sprintf("u%d:%s", variant, s)
+		to.Z = marker("u", variant) + s
 		to.X = int8(variant)
 		return nil
 	}
+}
+
+// marker is a string no generator of the harness can produce ('~' is in no
+// alphabet), so its presence in an output is attributable to one variant.
+func marker(kind string, variant int) string {
+	return "~" + kind + string(rune('A'+variant)) + "~"
+}
+
+// foreignMarker returns a marker of another variant found in s, or "".
+func foreignMarker(s, kind string, own int) string {
+	for v := 0; v < 16; v++ {
+		if v != own && strings.Contains(s, marker(kind, v)) {
+			return marker(kind, v)
+		}
+	}
+	return ""
 }
 
 func genOp(c *simkit.Choices, sh *shared, taskIdx int) *op {
@@ -189,6 +211,13 @@ func genOp(c *simkit.Choices, sh *shared, taskIdx int) *op {
 		val := sh.vals[i]
 		cd := common.ByName(f)
 		return &op{desc: OpDesc{Kind: "fold-encode", Format: string(f), Type: sh.types[i].Name},
+			check: func(_ string, parts []interface{}) string {
+				out, _ := parts[0].([]byte)
+				if m := foreignMarker(string(out), "v", -1); m != "" {
+					return "an iterator WITHOUT custom folders produced another iterator's marker: " + m
+				}
+				return ""
+			},
 			run: func(yield func()) []interface{} {
 				return guard(func() []interface{} {
 					w := yieldingWriter(yield)
@@ -237,6 +266,12 @@ func genOp(c *simkit.Choices, sh *shared, taskIdx int) *op {
 		i := c.N(len(sh.vals))
 		val, te := sh.vals[i], sh.types[i]
 		return &op{desc: OpDesc{Kind: "fold-unfold", Type: te.Name},
+			check: func(r string, _ []interface{}) string {
+				if m := foreignMarker(r, "u", -1) + foreignMarker(r, "v", -1); m != "" {
+					return "instances WITHOUT custom folders/unfolders produced another instance's marker: " + m
+				}
+				return ""
+			},
 			run: func(yield func()) []interface{} {
 				return guard(func() []interface{} {
 					ptr, _, get := te.NewTarget()
@@ -290,6 +325,16 @@ func genOp(c *simkit.Choices, sh *shared, taskIdx int) *op {
 			shape = model.Tagged{Name: "t", In: val.I}
 		}
 		return &op{desc: OpDesc{Kind: "custom-folder", Format: string(f), Variant: variant},
+			check: func(_ string, parts []interface{}) string {
+				out, _ := parts[0].([]byte)
+				if len(parts) == 2 && parts[1] == nil && !strings.Contains(string(out), marker("v", variant)) {
+					return "output lacks the marker of this iterator's own custom folder " + marker("v", variant)
+				}
+				if m := foreignMarker(string(out), "v", variant); m != "" {
+					return "output carries the marker of ANOTHER iterator's custom folder: " + m
+				}
+				return ""
+			},
 			run: func(yield func()) []interface{} {
 				return guard(func() []interface{} {
 					w := yieldingWriter(yield)
@@ -308,6 +353,15 @@ func genOp(c *simkit.Choices, sh *shared, taskIdx int) *op {
 		variant := taskIdx*2 + c.N(2)
 		s := model.GenText(c, 10)
 		return &op{desc: OpDesc{Kind: "custom-unfolder", Variant: variant},
+			check: func(r string, _ []interface{}) string {
+				if !strings.Contains(r, marker("u", variant)) && !strings.Contains(r, "err=") {
+					return "result lacks the marker of this unfolder's own custom unfolder " + marker("u", variant)
+				}
+				if m := foreignMarker(r, "u", variant); m != "" {
+					return "result carries the marker of ANOTHER unfolder's custom unfolder: " + m
+				}
+				return ""
+			},
 			run: func(yield func()) []interface{} {
 				return guard(func() []interface{} {
 					var to struct {
@@ -392,6 +446,12 @@ func (Engine) Run(c *simkit.Choices, x *simkit.Ctx) *simkit.Violation {
 	}
 	for t := 0; t < ntasks; t++ {
 		for i, o := range progs[t] {
+			if o.check != nil {
+				if why := o.check(conc[t][i], raw[t][i]); why != "" {
+					return &simkit.Violation{Kind: "task-result-wrong", Site: o.desc.Kind,
+						Detail: fmt.Sprintf("task %d op %d (%s): %s; result %s", t, i, o.desc.Kind, why, trunc(conc[t][i], 300)), Scenario: sc}
+				}
+			}
 			alone := render(o.run(func() {}))
 			if strings.HasPrefix(conc[t][i], "PANIC ") {
 				return &simkit.Violation{Kind: "panic", Site: o.desc.Kind, Detail: fmt.Sprintf("task %d op %d under contention: %s (alone: %s)", t, i, conc[t][i], trunc(alone, 200)), Scenario: sc}
